@@ -49,7 +49,9 @@ Apply(m, e) ==
            [] e.ev = "End" ->
                   IF e.judge = 1 /\ e.expectAllRecv = 1 /\ m.recv # Len(m.sent) THEN B(m, e, "inbound-corrupt")   \* bytes were lost on the way in
                   \* (judged at the end: a transport on another thread may log a packet after the result that depends on it)
-                  ELSE IF e.judge = 1 /\ \E o \in DOMAIN m.ops : m.ops[o].kind = "pub" /\ m.ops[o].ok = 1 /\ m.ops[o].ever = 0
+                  \* (not judged when the client closed a real socket: closing with unread data resets the connection and the peer
+                  \* may lose bytes it had not read yet - lossless = 0)
+                  ELSE IF e.judge = 1 /\ (e.closed = 0 \/ e.lossless = 1) /\ \E o \in DOMAIN m.ops : m.ops[o].kind = "pub" /\ m.ops[o].ok = 1 /\ m.ops[o].ever = 0
                        THEN B(m, e, "stream-mismatch")                                                              \* reported as sent, never reached the transport
                   ELSE m
            [] e.ev = "Panic" -> B(m, e, "panic")
